@@ -9,14 +9,13 @@ import vlib
 
 def cross_check():
     env = vlib.base_env("list")
-    r = subprocess.run(["cargo", "kani", "list", "--format", "json"], cwd=vlib.HARNESS, env=env,
+    r = subprocess.run(["cargo", "kani", "list", "--format", "json"], cwd=vlib.crate_dir(), env=env,
                        stdout=subprocess.PIPE, stderr=subprocess.STDOUT, text=True)
     if r.returncode != 0:
         print(r.stdout[-4000:])
         print("setup: cargo kani list failed", file=sys.stderr)
         return 1
-    lst = json.load(open(os.path.join(vlib.HARNESS, "kani-list.json")))
-    os.replace(os.path.join(vlib.HARNESS, "kani-list.json"), os.path.join(vlib.BUILD, "kani-list.json"))
+    lst = json.load(open(os.path.join(vlib.crate_dir(), "kani-list.json")))
     compiled = set()
     for f, hs in lst.get("standard-harnesses", {}).items():
         compiled.update(hs)
@@ -42,7 +41,7 @@ def main():
     # warm worker 0 (dependencies + one harness), then seed the other worker directories from it
     import shutil
     warm = ["cargo", "kani", "--no-default-features", "--features", "c02", "--harness", "c02::cbc_dec_b2_w2_n0", "--exact", "--only-codegen"]
-    r = subprocess.run(warm, cwd=vlib.HARNESS, env=vlib.base_env(0), stdout=subprocess.PIPE, stderr=subprocess.STDOUT, text=True)
+    r = subprocess.run(warm, cwd=vlib.crate_dir(), env=vlib.base_env(0), stdout=subprocess.PIPE, stderr=subprocess.STDOUT, text=True)
     if r.returncode != 0:
         print(r.stdout[-3000:])
         print("setup: warm build failed", file=sys.stderr)
@@ -53,6 +52,14 @@ def main():
         d = vlib.target_dir(w)
         if not os.path.exists(d):
             subprocess.run(["cp", "-a", w0, d], check=True)
+    # native self-test: the reference models against the repository's own known-answer vectors
+    st = subprocess.run(["cargo", "test", "--offline", "--no-default-features", "--test", "spec_vectors"], cwd=vlib.crate_dir(),
+                        env=vlib.base_env("native"), stdout=subprocess.PIPE, stderr=subprocess.STDOUT, text=True)
+    if st.returncode != 0 or "test result: ok" not in st.stdout:
+        print(st.stdout[-3000:])
+        print("setup: reference-model self-test (tests/spec_vectors.rs) failed", file=sys.stderr)
+        return 1
+    print("reference models agree with the repository's known-answer vectors (8 groups)")
     print(f"setup ok: {len(compiled)} harnesses, {time.time()-t0:.0f}s")
     return 0
 
